@@ -87,6 +87,38 @@ def check(run):
     # (b') arrays and objects as chains of slots (Model/Collection.v), filled to the last slot, under every geometry
     nchain = chaincheck.run(run, rnd, "C19", matrix, 60 if thorough else 10, nops=(40, 120))
     run.cov["disagreements_checked"] += nchain
+    # (b'') deserializers exactly at the slot limit: a container whose children need limit-1 / limit / limit+1 slots, in both
+    # formats: within the limit the result is the geometry-free one (Ok, all children), above it NoMemory with overflowed()
+    dgeoms = [g for g in matrix if g[0] == 1][: (8 if thorough else 4)] + [g for g in matrix if g[0] == 2][:1]
+    vlib.build_harnesses([("doc_h", dict(vlib.cfg_flags(cfg), **geom_defs(*g)), {}) for g in dgeoms])
+    for g in dgeoms:
+        defs = geom_defs(*g)
+        implD = vlib.need_harness("doc_h", cfg, defs)
+        limit = (1 << (8 * g[0])) - 1
+        cases = []
+        for n in (limit - 1, limit, limit + 1):
+            hdr = (bytes([0x90 + n]) if n < 16 else b"\xdc" + n.to_bytes(2, "big") if n < 65536 else b"\xdd" + n.to_bytes(4, "big"))
+            cases.append(("MF", hdr + b"\xc0" * n, n, n <= limit, "array of %d" % n))
+            cases.append(("JF", b"[" + b",".join([b"null"] * n) + b"]", n, n <= limit, "array of %d" % n))
+        for m in (limit // 2 - 1, limit // 2, limit // 2 + 1):
+            hdr = (bytes([0x80 + m]) if m < 16 else b"\xde" + m.to_bytes(2, "big") if m < 65536 else b"\xdf" + m.to_bytes(4, "big"))
+            # the same short key for every member: one string node, 2 slots per member
+            cases.append(("MF", hdr + b"\xa1k\x01" * m, m, 2 * m <= limit, "map of %d" % m))
+        dl = [f"{c} 250 - - {hx(x)}" for c, x, _, _, _ in cases]
+        io, crash = vlib.run_lines(implD, ["CFG " + cfg] + dl, timeout=900)
+        io = io[1:]
+        if crash:
+            run.violation(f"C19: library crashed at the slot limit (geometry {g}): {crash[:300]}", dict(kind="input", cfg=cfg, defines=defs, harness_src="doc_h", lines=[dl[min(len(io), len(dl) - 1)][:20000]], observed=crash[-2000:]))
+        for (c, x, n, fits, what), l, o in zip(cases, dl, io):
+            run.count((g, "limit", c, what))
+            code = o.split(" ")[0]
+            size_ok = o.split(" ")[1].count("n") + o.split(" ")[1].count("i1") >= n if fits else True
+            if fits and (code != "Ok" or " ov=1" in o or not size_ok):
+                oracle_fail.append((cfg, l[:3000], f"[geometry {g}] {what} needs no more than {limit} slots: Ok, every child present, overflowed() clear", o[:120] + " ..." + o[-60:]))
+            elif not fits and (code != "NoMemory" or " ov=1" not in o):
+                oracle_fail.append((cfg, l[:3000], f"[geometry {g}] {what} exceeds {limit} slots: NoMemory with overflowed() set", o[:120] + " ..." + o[-60:]))
+            elif "afterclear=0" not in o or "leaked=0" not in o or "MISUSE" in o or "NOT-REUSABLE" in o:
+                oracle_fail.append((cfg, l[:3000], f"[geometry {g}] memory returned, document reusable after the limit was met", o[-120:]))
     # (c) string length limit (1-byte lengths): 255 fits, 256 fails cleanly, document intact and usable
     implS = vlib.need_harness("hist_h", cfg, geom_defs(1, 16, 4, 1))
     s255, s256 = hx(b"x" * 255), hx(b"y" * 256)
@@ -103,7 +135,7 @@ def check(run):
     run.cov["rule"] = ("geometry matrix %s (slot-id bytes, pool capacity, inline pools): (a) %d tree-model histories below the limits must give the geometry-free model's observables; "
                        "(b) random and scripted alloc/free/shrinkToFit/clear histories with allocator failures on the slot allocator, exactly at / below / above 2^(8*size)-1 slots: ids < NULL_SLOT "
                        "and equal to the proved pool model's; (b') array / object histories (add, insert beyond the end, remove, member add/remove, clear, shrinkToFit, failures) incl. filling to the last slot: "
-                       "slot chains and allocator-call counts equal Model/Collection.v's and obey the proved list laws; (c) string length limit with 1-byte lengths; distinct = distinct (geometry, case)" % (matrix, nh))
+                       "slot chains and allocator-call counts equal Model/Collection.v's and obey the proved list laws; (b'') deserializeJson / deserializeMsgPack of containers needing limit-1 / limit / limit+1 slots (Ok with every child, or NoMemory with overflowed()); (c) string length limit with 1-byte lengths; distinct = distinct (geometry, case)" % (matrix, nh))
     run.sample(dict(geometry=matrix[0], case="PRUN a0 a0 a1 f0 s a0 c a0"))
     jsonchecks.finish_standard(run, "C19", ok, info, oracle_fail, all_mism, harness="hist_h")
 
